@@ -36,6 +36,7 @@ type World struct {
 	Overlay   map[string][]byte
 	Gen       map[string][]byte
 	Lemmas    map[string]*Lemma
+	StoredGlobals map[string]bool // globals assigned outside package initialisation
 }
 
 type SpecFn struct {
@@ -124,6 +125,7 @@ func loadRepo(repo string, overlay map[string][]byte) (*World, error) {
 			}
 		}
 	}
+	w.scanGlobalStores()
 	if err := w.collectLemmas(); err != nil {
 		return nil, err
 	}
@@ -179,4 +181,42 @@ func sortedKeys[V any](m map[string]V) []string {
 	}
 	sort.Strings(ks)
 	return ks
+}
+
+// scanGlobalStores records which package-level variables are assigned anywhere outside init.
+func (w *World) scanGlobalStores() {
+	w.StoredGlobals = map[string]bool{}
+	var rootGlobal func(v ssa.Value) *ssa.Global
+	rootGlobal = func(v ssa.Value) *ssa.Global {
+		switch a := v.(type) {
+		case *ssa.Global:
+			return a
+		case *ssa.FieldAddr:
+			return rootGlobal(a.X)
+		case *ssa.IndexAddr:
+			return rootGlobal(a.X)
+		}
+		return nil
+	}
+	var scan func(f *ssa.Function)
+	scan = func(f *ssa.Function) {
+		for _, b := range f.Blocks {
+			for _, ins := range b.Instrs {
+				if s, ok := ins.(*ssa.Store); ok {
+					if g := rootGlobal(s.Addr); g != nil {
+						w.StoredGlobals[g.Pkg.Pkg.Name()+"."+g.Name()] = true
+					}
+				}
+			}
+		}
+		for _, af := range f.AnonFuncs {
+			scan(af)
+		}
+	}
+	for _, f := range w.Funcs {
+		if f.Name() == "init" || strings.HasPrefix(f.Name(), "init#") {
+			continue
+		}
+		scan(f)
+	}
 }
